@@ -94,7 +94,13 @@ def e1(prog, ctx, L):
                 reach = [r for r in rr if any(d.node is st for d in rd.reaching(var, r))]
                 only = all(cfg.block_of(r) in cfg.reachable(tb) for r in reach) and reach
                 others = [r for r in f.returns() if cfg.block_of(r) in cfg.reachable(tb) and r not in rr]
-                if reach and not others:
+                from sa.buf import _redefined_between
+                clobber = [r for r in reach if _redefined_between(f, {var}, st, r)]
+                if clobber:
+                    ctx.fail("E1", "%s reaches the caller" % const, st.where,
+                             "on some path between the assignment and `return %s` the variable is assigned again: the parse error is replaced "
+                             "(e.g. by the result of a clean-up or post-processing call) and the caller sees success" % var, key="lost:%s" % const)
+                elif reach and not others:
                     ctx.ok("E1", "%s reaches the caller" % const, st.where, "the assignment reaches `return %s` with no other definition in between" % var)
                 else:
                     ctx.fail("E1", "%s reaches the caller" % const, st.where, "the code is overwritten or a different value is returned",
